@@ -16,6 +16,26 @@
  *   family E: reads that cannot fit under any reading (block sizes just above
  *             the block, and sizes whose octet count wraps in 32 bits): a
  *             transmit-overflow response and no memory access.
+ *   family O: option bits -- every combination of the header-checksum and
+ *             payload-checksum bits on either transport (the parser goes by
+ *             the bits, not by the transport): a receiver may refuse the
+ *             combinations doc/regp.txt 5.x does not mandate (then: no access);
+ *             one that accepts them has received a request and owes the full
+ *             exchange, with the capacity boundary where the *received* header
+ *             puts it.
+ *   family F: frames that fail reception by an independent reading of the
+ *             document (payload size against block sizes straddling 2^7, 2^8,
+ *             2^15, 2^16, 2^31, 2^32; wrong checksums; bad header encodings):
+ *             never a memory access.
+ *   family S: sessions of the documented serving loop (regp_loop.h): every
+ *             sequence of 2..3 (thorough: 4) receptions out of good requests,
+ *             non-requests, corrupted frames and channel-level failures on one
+ *             instance, with the caller's RPMaybeFrame cleared per round /
+ *             reused / reused with indeterminate first contents, on a heap and
+ *             on a pool allocator.
+ *   family G: the reply cannot be sent (sink failure at every octet offset of
+ *             every reply kind): still exactly one access, and the next
+ *             request is served as on a fresh instance.
  * Reads whose data fits the block behind the request's own header but not
  * together with a full 16-octet response header ("the band") may be served or
  * answered with a transmit-overflow response without access: statement C09
@@ -24,6 +44,7 @@
  */
 #include "mc.h"
 #include "regp_ref.h"
+#include "regp_loop.h"
 
 #define BLOCKSIZE 160
 
@@ -51,7 +72,37 @@ struct req {
     /* non-request input (family C): type/meta override */
     int rawtype; /* -1: request */
     unsigned rawmeta;
+    /* option bits: 0 = the ones doc/regp.txt 5.x mandates for the transport;
+     * 1 + (header checksum | payload checksum << 1) = forced */
+    int optmode;
 };
+
+static unsigned
+req_crcbits(const struct req *q, size_t plen)
+{
+    if (q->optmode == 0)
+        return (q->tcp ? 0 : RO_HDCRC) | ((!q->tcp && plen) ? RO_PLCRC : 0);
+    const int m = q->optmode - 1;
+    return ((m & 1) ? RO_HDCRC : 0) | ((m & 2) ? RO_PLCRC : 0);
+}
+
+static size_t
+req_plen(const struct req *q)
+{
+    const size_t ws = q->sem16 ? 2 : 1;
+    if (q->rawtype < 0)
+        return q->write ? q->bsize * ws : 0;
+    return (q->rawtype == RT_READ_RESP || q->rawtype == RT_WRITE_RESP) ? q->bsize * ws : 0;
+}
+
+/* forced option bits that are the mandated ones anyway */
+static bool
+optmode_redundant(const struct req *q)
+{
+    struct req c = *q;
+    c.optmode = 0;
+    return q->optmode != 0 && req_crcbits(q, req_plen(q)) == req_crcbits(&c, req_plen(q));
+}
 
 static size_t
 build_wire(const struct req *q, unsigned char *wire, unsigned char *payload, size_t *plen_out)
@@ -70,7 +121,7 @@ build_wire(const struct req *q, unsigned char *wire, unsigned char *payload, siz
         plen = (f.type == RT_READ_RESP || f.type == RT_WRITE_RESP) ? q->bsize * ws : 0;
     }
     fill(payload, plen, q->content);
-    f.options = (q->sem16 ? RO_W16 : 0) | (q->tcp ? 0 : RO_HDCRC) | ((!q->tcp && plen) ? RO_PLCRC : 0);
+    f.options = (q->sem16 ? RO_W16 : 0) | req_crcbits(q, plen);
     f.seq = q->seq;
     f.addr = q->addr;
     f.bsize = q->bsize;
@@ -126,7 +177,8 @@ carries_bufsize(unsigned code)
 static size_t
 req_hdr(const struct req *q)
 {
-    return q->tcp ? 12 : (q->write && q->bsize ? 16 : 14);
+    const unsigned o = req_crcbits(q, req_plen(q));
+    return 12 + ((o & RO_HDCRC) ? 2 : 0) + ((o & RO_PLCRC) ? 2 : 0);
 }
 
 /* value admitted as "the buffer size" in overflow responses: the block, the
@@ -158,6 +210,24 @@ check_request(const struct req *q)
     mc_log_hex("reply-wire", D.out, D.outlen);
     const char *outcome = "?";
     const bool mismatch = q->rawtype < 0 && (q->sem16 != q->mem16);
+    {
+        /* option bits other than the ones doc/regp.txt 5.1/5.2 mandate for the
+         * transport, or a payload checksum declared without payload (2.2.3:
+         * "shall be unset"): the document does not say that a receiver has to
+         * take such a frame.  If it does not, reception failed: no access. */
+        struct req canon = *q;
+        canon.optmode = 0;
+        const unsigned o = req_crcbits(q, plen);
+        const bool undecided = o != req_crcbits(&canon, plen) || ((o & RO_PLCRC) && plen == 0);
+        if (undecided && (rrc < 0 || errid != 0 || !hadframe)) {
+            outcome = "unmandated-options-refused";
+            if (D.ncalls != 0)
+                mc_fail("C06/failed-reception-no-access", "reception refused the frame (rc=%d error.id=%d) but %d memory accesses happened", rrc, errid, D.ncalls);
+            else if (!drv_balanced(&D))
+                mc_fail("C06/frame-block-released", "allocs=%d frees=%d live=%d bad=%d", D.allocs, D.frees, D.nlive, D.bad_frees);
+            goto out;
+        }
+    }
     if (rrc < 0 || errid != 0 || !hadframe) {
         mc_fail("C06/valid-frame-received", "reception of a valid frame: rc=%d error.id=%d frame=%d", rrc, errid, hadframe);
         goto out;
@@ -282,12 +352,15 @@ out:
 static void
 desc_req(const struct req *q, char *b, size_t n)
 {
+    char o[24] = "";
+    if (q->optmode)
+        snprintf(o, sizeof o, " hdcrc=%d plcrc=%d", (q->optmode - 1) & 1, ((q->optmode - 1) >> 1) & 1);
     if (q->rawtype < 0)
-        snprintf(b, n, "%s %s%d mem%d addr=%08x size=%u content=%d seq=%04x verdict=%s@%08x", q->tcp ? "tcp" : "serial", q->write ? "write" : "read",
-                 q->sem16 ? 16 : 8, q->mem16 ? 16 : 8, q->addr, q->bsize, q->content, q->seq, RESPNAME[q->verdict], q->vaddr);
+        snprintf(b, n, "%s %s%d mem%d addr=%08x size=%u content=%d seq=%04x verdict=%s@%08x%s", q->tcp ? "tcp" : "serial", q->write ? "write" : "read",
+                 q->sem16 ? 16 : 8, q->mem16 ? 16 : 8, q->addr, q->bsize, q->content, q->seq, RESPNAME[q->verdict], q->vaddr, o);
     else
-        snprintf(b, n, "%s input-frame type=%d meta=%u sem%d mem%d addr=%08x size=%u seq=%04x", q->tcp ? "tcp" : "serial", q->rawtype, q->rawmeta,
-                 q->sem16 ? 16 : 8, q->mem16 ? 16 : 8, q->addr, q->bsize, q->seq);
+        snprintf(b, n, "%s input-frame type=%d meta=%u sem%d mem%d addr=%08x size=%u seq=%04x%s", q->tcp ? "tcp" : "serial", q->rawtype, q->rawmeta,
+                 q->sem16 ? 16 : 8, q->mem16 ? 16 : 8, q->addr, q->bsize, q->seq, o);
 }
 
 /* largest block size (in words of the request's semantics) that family A uses */
@@ -300,6 +373,410 @@ capacity(bool tcp, bool write, bool sem16)
      * with its header (12 on tcp, 16 on serial: both checksums) */
     const size_t hdr = tcp ? 12 : (write ? 16 : 14);
     return (uint32_t)((rawcap - hdr) / (sem16 ? 2 : 1));
+}
+
+/* ---- family O: every combination of the two checksum option bits ---------------------------- */
+static void
+family_options(bool th)
+{
+    char d[300];
+    const size_t rawcap = BLOCKSIZE - sizeof(RPFrame);
+    for (int tcp = 0; tcp < 2; ++tcp)
+        for (int write = 0; write < 2; ++write)
+            for (int sem16 = 0; sem16 < 2; ++sem16)
+                for (int om = 1; om <= 4; ++om) {
+                    const size_t hdr = 12 + (((om - 1) & 1) ? 2 : 0) + (((om - 1) & 2) ? 2 : 0);
+                    const uint32_t cap = (uint32_t)((rawcap - hdr) / (sem16 ? 2 : 1));
+                    /* writes up to what fits the block with this header; reads up to three
+                     * words beyond what fits behind it (those must be refused) */
+                    const uint32_t top = write ? cap : cap + 3;
+                    for (uint32_t bs = 0; bs <= top; ++bs) {
+                        if (!th && bs > 2 && bs + 3 < cap)
+                            continue; /* quick: tiny blocks and the capacity boundary */
+                        for (unsigned ai = 2; ai < 6; ai += 3)
+                            for (int content = 0; content < (write ? 4 : 1); content += 3) {
+                                struct req q = { tcp, write, sem16, sem16, ADDRS[ai], bs, content, SEQS[ai & 3], RP_RESP_ACK, ADDRS[ai], -1, 0, om };
+                                if (optmode_redundant(&q))
+                                    continue;
+                                desc_req(&q, d, sizeof d);
+                                if (!mc_case("O %s", d))
+                                    continue;
+                                mc_end(true, check_request(&q));
+                            }
+                    }
+                }
+}
+
+/* ---- family F: frames that fail reception never cause an access ------------------------------ */
+static const uint32_t *
+size_family(unsigned *n)
+{
+    static uint32_t S[64];
+    static unsigned ns;
+    if (!ns) {
+        for (uint32_t b = 0; b <= 4; ++b)
+            S[ns++] = b;
+        static const int K[] = { 7, 8, 15, 16, 31 };
+        for (unsigned k = 0; k < 5; ++k)
+            for (int w = -1; w <= 3; ++w)
+                S[ns++] = (uint32_t)((1ull << K[k]) + (unsigned long long)(long long)w);
+        S[ns++] = 0xfffffffdu;
+        S[ns++] = 0xfffffffeu;
+        S[ns++] = 0xffffffffu;
+    }
+    *n = ns;
+    return S;
+}
+
+static void
+family_invalid(void)
+{
+    unsigned ns;
+    const uint32_t *S = size_family(&ns);
+    static const char *VN[] = { "as built", "header checksum wrong", "payload checksum wrong", "version 1", "reserved option bit", "meta field 1" };
+    for (int tcp = 0; tcp < 2; ++tcp)
+        for (int write = 0; write < 2; ++write)
+            for (int sem16 = 0; sem16 < 2; ++sem16)
+                for (int om = 0; om <= 4; ++om)
+                    for (unsigned si = 0; si < ns; ++si) {
+                        if (!mc_case("F %s %s%d hdcrc/plcrc-mode=%d size=%u x payload 0..8 octets x {as built, wrong checksums, version, reserved option, meta}: frames invalid by the document",
+                                     tcp ? "tcp" : "serial", write ? "write" : "read", sem16 ? 16 : 8, om, S[si]))
+                            continue;
+                        int judged = 0;
+                        for (size_t p = 0; p <= 8 && !mc.cur_failed; ++p)
+                            for (int v = 0; v < 6 && !mc.cur_failed; ++v) {
+                                unsigned char raw[64], wire[160], pl[8];
+                                struct req q = { tcp, write, sem16, sem16, 0x64, S[si], 0, 0x0f06, RP_RESP_ACK, 0x64, -1, 0, om };
+                                struct rframe f, rf;
+                                memset(&f, 0, sizeof f);
+                                for (size_t i = 0; i < p; ++i)
+                                    pl[i] = (unsigned char)(0xa1 + 5 * i);
+                                const unsigned crcbits = req_crcbits(&q, p);
+                                if (v == 1 && !(crcbits & RO_HDCRC))
+                                    continue;
+                                if (v == 2 && !((crcbits & RO_PLCRC) && p))
+                                    continue;
+                                f.version = v == 3;
+                                f.type = write ? RT_WRITE_REQ : RT_READ_REQ;
+                                f.options = (sem16 ? RO_W16 : 0) | crcbits | (v == 4 ? 8u : 0);
+                                f.meta = v == 5;
+                                f.seq = q.seq;
+                                f.addr = q.addr;
+                                f.bsize = q.bsize;
+                                f.payload = pl;
+                                f.plen = p;
+                                const size_t rn = rr_build(raw, &f, v == 1, v == 2);
+                                if (rr_verdict(raw, rn, &rf) & RV_OK)
+                                    continue; /* valid under some reading: not this family's subject */
+                                const size_t wn = tcp ? rr_lenprefix(wire, raw, rn) : rr_slip(wire, raw, rn);
+                                drv_init(&D, tcp, sem16, BLOCKSIZE, !tcp);
+                                drv_feed(&D, wire, wn);
+                                RPMaybeFrame mf;
+                                memset(&mf, 0, sizeof mf);
+                                struct lp_result r;
+                                lp_round(&D, &mf, &r);
+                                mc_trans(3);
+                                judged++;
+                                mc_log("payload=%zu octets, %s: recv rc=%d error.id=%d process rc=%d calls=%d reply=%zu octets", p, VN[v], r.rrc, r.errid, r.prc, r.calls,
+                                       D.outlen);
+                                if (r.calls != 0)
+                                    mc_fail("C06/failed-reception-no-access",
+                                            "a %s request announcing %u words with %zu payload octets (%s) is no valid frame by doc/regp.txt but caused %d memory accesses (error.id=%d)",
+                                            write ? "write" : "read", S[si], p, VN[v], r.calls, r.errid);
+                                else if (!drv_balanced(&D))
+                                    mc_fail("C06/frame-block-released", "allocs=%d frees=%d live=%d bad=%d", D.allocs, D.frees, D.nlive, D.bad_frees);
+                                drv_release(&D);
+                            }
+                        mc_end(judged > 0, mc.cur_failed ? "failed" : judged ? "invalid-frame-no-access" : "no-invalid-frame");
+                    }
+}
+
+/* ---- family S: sessions of the documented serving loop ------------------------------------------ */
+enum { IK_GOOD, IK_NONREQ, IK_BAD, IK_CHAN };
+struct item {
+    int kind;
+    const char *name;
+    unsigned char wire[640];
+    size_t n;
+    long src_err_at;
+    bool alloc_fails; /* every allocation of the round is refused */
+    RPResponse verdict;
+    uint32_t vaddr;
+};
+#define NITEMS 14
+
+static void
+item_from_req(struct item *it, int kind, const char *name, const struct req *q)
+{
+    unsigned char pl[600];
+    size_t plen;
+    memset(it, 0, sizeof *it);
+    it->kind = kind;
+    it->name = name;
+    it->n = build_wire(q, it->wire, pl, &plen);
+    it->src_err_at = -1;
+    it->verdict = q->verdict;
+    it->vaddr = q->vaddr;
+}
+
+static void
+item_from_raw(struct item *it, int kind, const char *name, bool tcp, const unsigned char *raw, size_t rn)
+{
+    memset(it, 0, sizeof *it);
+    it->kind = kind;
+    it->name = name;
+    it->n = tcp ? rr_lenprefix(it->wire, raw, rn) : rr_slip(it->wire, raw, rn);
+    it->src_err_at = -1;
+    it->verdict = RP_RESP_ACK;
+}
+
+static void
+build_items(bool tcp, struct item *it)
+{
+    const struct req w16 = { tcp, true, true, true, 0x64, 2, 1, 0x0101, RP_RESP_ACK, 0x64, -1, 0, 0 };
+    const struct req r16 = { tcp, false, true, true, 0x66, 2, 0, 0x0202, RP_RESP_ACK, 0x66, -1, 0, 0 };
+    const struct req wer = { tcp, true, true, true, 0x68, 1, 3, 0xc0db, RP_RESP_ERANGE, 0x69, -1, 0, 0 };
+    const struct req w8 = { tcp, true, false, true, 0x6a, 2, 0, 0x0404, RP_RESP_ACK, 0x6a, -1, 0, 0 };
+    const struct req rsp = { tcp, false, true, true, 0x10, 1, 0, 9, RP_RESP_ACK, 0, RT_READ_RESP, 0, 0 };
+    const struct req met = { tcp, false, false, true, 0, 0, 0, 0, RP_RESP_ACK, 0, RT_META, 1, 0 };
+    item_from_req(&it[0], IK_GOOD, "write16-acked", &w16);
+    item_from_req(&it[1], IK_GOOD, "read16-acked", &r16);
+    item_from_req(&it[2], IK_GOOD, "write16-ERANGE", &wer);
+    item_from_req(&it[3], IK_GOOD, "write8-to-16bit-memory", &w8);
+    item_from_req(&it[4], IK_NONREQ, "read-response", &rsp);
+    item_from_req(&it[5], IK_NONREQ, "meta-message", &met);
+    /* corrupted variants of an executable write request */
+    unsigned char raw[64], pl[8] = { 0x11, 0x22, 0x33, 0x44 };
+    struct rframe f, chk;
+    memset(&f, 0, sizeof f);
+    f.type = RT_WRITE_REQ;
+    f.options = RO_W16 | (tcp ? 0 : RO_HDCRC | RO_PLCRC);
+    f.seq = 0x0606;
+    f.addr = 0x70;
+    f.bsize = 2;
+    f.payload = pl;
+    f.plen = 4;
+    size_t rn;
+    if (tcp) {
+        f.version = 1;
+        rn = rr_build(raw, &f, false, false);
+        f.version = 0;
+    } else
+        rn = rr_build(raw, &f, true, false);
+    MC_ANCHOR(!(rr_verdict(raw, rn, &chk) & RV_OK), "session item: header fault is invalid by the reference");
+    item_from_raw(&it[6], IK_BAD, tcp ? "write16-bad-version" : "write16-bad-header-checksum", tcp, raw, rn);
+    if (tcp) {
+        f.plen = 3;
+        rn = rr_build(raw, &f, false, false);
+        f.plen = 4;
+    } else
+        rn = rr_build(raw, &f, false, true);
+    MC_ANCHOR(!(rr_verdict(raw, rn, &chk) & RV_OK), "session item: payload fault is invalid by the reference");
+    item_from_raw(&it[7], IK_BAD, tcp ? "write16-payload-one-octet-short" : "write16-bad-payload-checksum", tcp, raw, rn);
+    /* channel-level failures while the executable write request arrives */
+    item_from_req(&it[8], IK_CHAN, "source-error-inside-frame", &w16);
+    it[8].src_err_at = 7;
+    item_from_req(&it[9], IK_CHAN, tcp ? "stream-ends-inside-frame" : "slip-escape-violation", &w16);
+    if (tcp)
+        it[9].n -= 3;
+    else {
+        it[9].wire[5] = 0xdb;
+        it[9].wire[6] = 0x01;
+        MC_ANCHOR(!lp_slip_may_be_valid(it[9].wire, it[9].n), "session item: no reading of the escape violation yields a valid frame");
+    }
+    item_from_req(&it[10], IK_CHAN, "source-has-nothing", &w16);
+    it[10].n = 0;
+    memset(&it[11], 0, sizeof it[11]);
+    it[11].kind = IK_BAD;
+    it[11].name = tcp ? "zero-length-frame" : "empty-frame";
+    it[11].wire[0] = tcp ? 0x00 : 0xc0;
+    it[11].n = 1;
+    it[11].src_err_at = -1;
+    /* receptions that fail for want of memory: no block at all / a frame larger than the block */
+    item_from_req(&it[12], IK_BAD, "write16-while-allocation-fails", &w16);
+    it[12].alloc_fails = true;
+    const struct req big = { tcp, true, false, true, 0x90, 2 * BLOCKSIZE - 60, 0, 0x0909, RP_RESP_ACK, 0x90, -1, 0, 0 };
+    item_from_req(&it[13], IK_BAD, "write8-larger-than-the-block", &big);
+}
+
+static void
+feed_item(struct drv *d, const struct item *x)
+{
+    drv_feed(d, x->wire, x->n);
+    d->src_err_at = x->src_err_at;
+    d->src_err = -EIO;
+    d->outlen = 0;
+    d->ncalls = 0;
+    d->verdict = x->verdict;
+    d->verdict_addr = x->vaddr;
+    d->fail_mask = x->alloc_fails ? ~0u << (d->allocs > 31 ? 31 : d->allocs) : 0;
+}
+
+static const char *MFMODE[] = { "cleared-per-round", "reused", "reused-indeterminate-at-start" };
+
+/* a good frame's exchange on D (just done, result r) equals the exchange on a fresh instance */
+static int g_srcmode = -1; /* -1: octet source on serial, chunk source on tcp (as in the other families) */
+static const char *SRCNAME[] = { "chunk source", "octet source", "chunk source with getbuffer" };
+
+static int
+srcmode_of(bool tcp)
+{
+    return g_srcmode >= 0 ? g_srcmode : tcp ? DRV_SRC_CHUNK : DRV_SRC_OCTET;
+}
+
+static bool
+equals_fresh(bool tcp, const struct item *x, const struct lp_result *r)
+{
+    drv_init_ex(&F, tcp, true, BLOCKSIZE, srcmode_of(tcp));
+    feed_item(&F, x);
+    RPMaybeFrame mf;
+    memset(&mf, 0, sizeof mf);
+    struct lp_result fr;
+    lp_round(&F, &mf, &fr);
+    const bool same = r->calls == fr.calls && r->errid == fr.errid && D.outlen == F.outlen && memcmp(D.out, F.out, D.outlen) == 0
+        && (fr.calls != 1 || same_call(&D.call[0], &F.call[0]));
+    mc_log("  fresh instance: calls=%d error.id=%d reply=%zu octets", fr.calls, fr.errid, F.outlen);
+    drv_release(&F);
+    g_drv = &D; /* the backend records into the driver initialised last */
+    return same;
+}
+
+static void
+run_session(bool tcp, const struct item *it, const int *seq, int len, int mfmode, int pool)
+{
+    drv_init_ex(&D, tcp, true, BLOCKSIZE, srcmode_of(tcp));
+    if (pool)
+        lp_use_pool(&D, 0);
+    RPMaybeFrame mf;
+    memset(&mf, 0, sizeof mf);
+    if (mfmode == 2)
+        lp_decoy(&mf, true);
+    for (int k = 0; k < len && !mc.cur_failed; ++k) {
+        const struct item *x = &it[seq[k]];
+        if (mfmode == 0)
+            memset(&mf, 0, sizeof mf);
+        feed_item(&D, x);
+        struct lp_result r;
+        lp_round(&D, &mf, &r);
+        mc_trans(3);
+        mc_log("round %d %s: recv rc=%d error.id=%d process rc=%d calls=%d reply=%zu octets", k, x->name, r.rrc, r.errid, r.prc, r.calls, D.outlen);
+        if (x->kind == IK_GOOD || x->kind == IK_NONREQ) {
+            if (!equals_fresh(tcp, x, &r))
+                mc_fail("C06/requests-independent", "round %d (%s): the exchange differs from the same exchange on a fresh instance (calls=%d, reply %zu octets)", k,
+                        x->name, r.calls, D.outlen);
+        } else if (r.calls != 0) {
+            mc_fail("C06/failed-reception-no-access", "round %d (%s): reception failed (rc=%d error.id=%d) but the round caused %d memory accesses (%s addr=%08x size=%zu)",
+                    k, x->name, r.rrc, r.errid, r.calls, D.call[0].write ? "write" : "read", D.call[0].addr, D.call[0].bsize);
+        }
+    }
+    if (!mc.cur_failed && !drv_balanced(&D))
+        mc_fail("C06/frame-block-released", "after the session: allocs=%d frees=%d live=%d foreign/double releases=%d", D.allocs, D.frees, D.nlive, D.bad_frees);
+    lp_release(&D);
+}
+
+static void
+family_sessions(bool th)
+{
+    static struct item items[2][NITEMS];
+    build_items(false, items[0]);
+    build_items(true, items[1]);
+    for (int sm = -1; sm < (th ? 3 : 0); ++sm)
+    for (int tcp = 0; tcp < 2; ++tcp)
+        for (int mfmode = 0; mfmode < 3; ++mfmode)
+            for (int pool = 0; pool < 2; ++pool)
+                for (int len = 2; len <= (th && sm < 0 ? 4 : 3); ++len) {
+                    if (sm >= 0 && sm == (tcp ? DRV_SRC_CHUNK : DRV_SRC_OCTET))
+                        continue; /* that is the default */
+                    g_srcmode = sm;
+                    int seq[4] = { 0, 0, 0, 0 };
+                    for (;;) {
+                        char sd[200];
+                        size_t o = 0;
+                        for (int k = 0; k < len; ++k)
+                            o += (size_t)snprintf(sd + o, sizeof sd - o, "%s%s", k ? ", " : "", items[tcp][seq[k]].name);
+                        if (mc_case("S %s loop (%s): RPMaybeFrame %s, %s allocator: %s", tcp ? "tcp" : "serial", SRCNAME[srcmode_of(tcp)], MFMODE[mfmode],
+                                    pool ? "pool" : "heap", sd)) {
+                            run_session(tcp, items[tcp], seq, len, mfmode, pool);
+                            bool fail_round = false;
+                            for (int k = 0; k < len; ++k)
+                                fail_round |= items[tcp][seq[k]].kind >= IK_BAD;
+                            mc_end(true, mc.cur_failed ? "failed" : fail_round ? "session-with-failed-reception" : "session-all-received");
+                        }
+                        int k = len - 1;
+                        while (k >= 0 && ++seq[k] == NITEMS)
+                            seq[k--] = 0;
+                        if (k < 0)
+                            break;
+                    }
+                }
+    g_srcmode = -1;
+}
+
+/* ---- family G: the reply cannot be sent ------------------------------------------------------------ */
+static void
+family_sendfail(void)
+{
+    static const int ERRS[] = { -EIO, -ENOMEM, -EPIPE }; /* not -EAGAIN/-EINTR: the endpoint layer retries those by contract */
+    static const char *KN[] = { "read16-acked", "write16-acked", "write16-ERANGE", "read16-EIO", "write8-to-16bit-memory", "read16-too-large", "read16-EUNMAPPED",
+                                "write16-while-allocation-fails", "write8-larger-than-the-block" };
+    for (int tcp = 0; tcp < 2; ++tcp)
+        for (int kind = 0; kind < 9; ++kind)
+            for (int at = 0; at < 24; ++at)
+                for (int ei = 0; ei < 3; ++ei) {
+                    if (!mc_case("G %s %s: sink fails with %d at reply octet %d; then a write16 on the healed channel", tcp ? "tcp" : "serial", KN[kind], ERRS[ei], at))
+                        continue;
+                    const struct req Q[9] = {
+                        { tcp, false, true, true, 0x66, 2, 0, 0x0202, RP_RESP_ACK, 0x66, -1, 0, 0 },
+                        { tcp, true, true, true, 0x64, 2, 1, 0x0101, RP_RESP_ACK, 0x64, -1, 0, 0 },
+                        { tcp, true, true, true, 0x68, 1, 3, 0xc0db, RP_RESP_ERANGE, 0x69, -1, 0, 0 },
+                        { tcp, false, true, true, 0x6c, 1, 0, 0x0303, RP_RESP_EIO, 0, -1, 0, 0 },
+                        { tcp, true, false, true, 0x6a, 2, 0, 0x0404, RP_RESP_ACK, 0x6a, -1, 0, 0 },
+                        { tcp, false, true, true, 0x6e, 0x10000, 0, 0x0505, RP_RESP_ACK, 0, -1, 0, 0 },
+                        { tcp, false, true, true, 0x72, 3, 0, 0x0707, RP_RESP_EUNMAPPED, 0x73, -1, 0, 0 },
+                        { tcp, true, true, true, 0x64, 2, 1, 0x0101, RP_RESP_ACK, 0x64, -1, 0, 0 },
+                        { tcp, true, false, true, 0x90, 2 * BLOCKSIZE - 60, 0, 0x0909, RP_RESP_ACK, 0x90, -1, 0, 0 },
+                    };
+                    const struct req next = { tcp, true, true, true, 0x80, 1, 0, 0x0808, RP_RESP_ACK, 0x80, -1, 0, 0 };
+                    struct item a, b;
+                    item_from_req(&a, IK_GOOD, KN[kind], &Q[kind]);
+                    item_from_req(&b, IK_GOOD, "write16-acked", &next);
+                    a.alloc_fails = kind == 7;
+                    const int want = (kind == 4 || kind == 5 || kind >= 7) ? 0 : 1;
+                    drv_init(&D, tcp, true, BLOCKSIZE, !tcp);
+                    RPMaybeFrame mf;
+                    memset(&mf, 0, sizeof mf);
+                    feed_item(&D, &a);
+                    D.sink_err_at = at;
+                    D.sink_err = ERRS[ei];
+                    struct lp_result r;
+                    lp_round(&D, &mf, &r);
+                    mc_trans(3);
+                    const bool hit = D.sink_err_hit;
+                    mc_log("round 0: recv rc=%d error.id=%d process rc=%d calls=%d sent=%zu octets, sink failure %s", r.rrc, r.errid, r.prc, r.calls, D.outlen,
+                           hit ? "hit" : "not reached");
+                    const struct drv_call *c = &D.call[0];
+                    if (r.calls != want)
+                        mc_fail(want ? "C06/exactly-one-access" : kind == 4 ? "C06/wordsize-no-access" : kind == 5 ? "C06/too-large-read-no-access" : "C06/failed-reception-no-access",
+                                "%d memory accesses for one request whose reply %s (expected %d)", r.calls, hit ? "could not be sent" : "was sent", want);
+                    else if (want && (c->write != Q[kind].write || !c->m16 || c->addr != Q[kind].addr || c->bsize != Q[kind].bsize))
+                        mc_fail("C06/access-matches-request", "backend saw %s addr=%08x size=%zu for request %s addr=%08x size=%u", c->write ? "write" : "read", c->addr,
+                                c->bsize, Q[kind].write ? "write" : "read", Q[kind].addr, Q[kind].bsize);
+                    else {
+                        D.sink_err_at = -1;
+                        D.sink_err_hit = false;
+                        feed_item(&D, &b);
+                        lp_round(&D, &mf, &r);
+                        mc_trans(3);
+                        mc_log("round 1: recv rc=%d error.id=%d process rc=%d calls=%d reply=%zu octets", r.rrc, r.errid, r.prc, r.calls, D.outlen);
+                        if (!equals_fresh(tcp, &b, &r))
+                            mc_fail("C06/requests-independent", "the request after a failed transmission is not served as on a fresh instance (calls=%d, reply %zu octets)",
+                                    r.calls, D.outlen);
+                        else if (!drv_balanced(&D))
+                            mc_fail("C06/frame-block-released", "allocs=%d frees=%d live=%d foreign/double releases=%d", D.allocs, D.frees, D.nlive, D.bad_frees);
+                    }
+                    drv_release(&D);
+                    mc_end(hit, mc.cur_failed ? "failed" : hit ? "reply-unsendable" : "sink-failure-not-reached");
+                }
 }
 
 int
@@ -428,26 +905,35 @@ main(int argc, char **argv)
                     mc_end(true, mc.cur_failed ? "failed" : "session-pair");
                 }
     }
-    /* family E: reads that cannot fit */
+    /* family E: reads that cannot fit, under every combination of the checksum option bits */
     for (int tcp = 0; tcp < 2; ++tcp)
-        for (int m16 = 0; m16 < 2; ++m16) {
-            const size_t rawcap = BLOCKSIZE - sizeof(RPFrame);
-            const size_t ws = m16 ? 2 : 1;
-            const size_t hdr = tcp ? 12 : 14;
-            const uint32_t first = (uint32_t)((rawcap - hdr) / ws + 1); /* smallest size that does not fit behind the request header */
-            const uint32_t BS[] = { first, first + 1, first + 2, (uint32_t)(rawcap / ws), (uint32_t)(rawcap / ws + 1), BLOCKSIZE, 1000, 0xffff, 0x10000,
-                                    0x7fffffffu, 0x80000000u, 0x80000001u, 0x80000002u, 0x80000008u, 0x80000010u, 0x80000000u + (uint32_t)(rawcap / 2),
-                                    0xfffffffeu, 0xffffffffu };
-            for (unsigned bi = 0; bi < sizeof BS / sizeof *BS; ++bi)
-                for (unsigned ai = 0; ai < 6; ai += 5) {
-                    struct req q = { tcp, false, m16, m16, ADDRS[ai], BS[bi], 0, 0x0e0e, RP_RESP_ACK, ADDRS[ai], -1, 0 };
-                    desc_req(&q, d, sizeof d);
-                    if (!mc_case("E %s", d))
-                        continue;
-                    mc_end(true, check_request(&q));
-                }
-        }
-    mc_finish(true, th ? "A: 2 transports x read/write x 8/16-bit semantics x 8/16-bit memory x 6 addresses x every block size 0..capacity(160-octet block) x 4 contents x 4 sequence numbers; B: 12 verdicts x 3 reported addresses x kinds x sizes 0..3; C: every response code / meta code as input (document-conformant payloads); D: all ordered pairs of 19 frames per transport; E: reads of 18 sizes that cannot fit (just above the buffer .. 2^32-1, incl. sizes whose octet count wraps in 32 bits) x transports x memory widths"
-                       : "A: as thorough with the sequence number rotating with the address for blocks > 2; B: 12 verdicts x 3 reported addresses x kinds x sizes 0..3; C: every response code / meta code as input (document-conformant payloads); D: all ordered pairs of 19 frames per transport; E: reads of 18 sizes that cannot fit (just above the buffer .. 2^32-1, incl. sizes whose octet count wraps in 32 bits) x transports x memory widths");
+        for (int m16 = 0; m16 < 2; ++m16)
+            for (int om = 0; om <= 4; ++om) {
+                struct req probe = { tcp, false, m16, m16, 0, 0, 0, 0, RP_RESP_ACK, 0, -1, 0, om };
+                if (optmode_redundant(&probe))
+                    continue;
+                const size_t rawcap = BLOCKSIZE - sizeof(RPFrame);
+                const size_t ws = m16 ? 2 : 1;
+                const size_t hdr = req_hdr(&probe);
+                const uint32_t first = (uint32_t)((rawcap - hdr) / ws + 1); /* smallest size that does not fit behind the request header */
+                const uint32_t BS[] = { first, first + 1, first + 2, (uint32_t)(rawcap / ws), (uint32_t)(rawcap / ws + 1), BLOCKSIZE, 1000, 0x7fff, 0x8000, 0x8001, 0xffff, 0x10000,
+                                        0x10001, 0x10000 + first - 1, 0x7fffffffu, 0x80000000u, 0x80000001u, 0x80000002u, 0x80000008u, 0x80000010u,
+                                        0x80000000u + (uint32_t)(rawcap / 2), 0x80000000u + first - 1, 0xfffffffeu, 0xffffffffu };
+                for (unsigned bi = 0; bi < sizeof BS / sizeof *BS; ++bi)
+                    for (unsigned ai = 0; ai < 6; ai += 5) {
+                        struct req q = { tcp, false, m16, m16, ADDRS[ai], BS[bi], 0, 0x0e0e, RP_RESP_ACK, ADDRS[ai], -1, 0, om };
+                        desc_req(&q, d, sizeof d);
+                        if (!mc_case("E %s", d))
+                            continue;
+                        mc_end(true, check_request(&q));
+                    }
+            }
+    family_options(th);
+    family_invalid();
+    family_sessions(th);
+    family_sendfail();
+#define BOUND_REST "B: 12 verdicts x 3 reported addresses x kinds x sizes 0..3; C: every response code / meta code as input (document-conformant payloads); D: all ordered pairs of 19 frames per transport; E: reads of 24 sizes that cannot fit (just above the buffer .. 2^32-1, straddling 2^15/2^16/2^31/2^32, incl. sizes whose octet count wraps in 16 or 32 bits) x transports x memory widths x every checksum-option combination; F: invalid frames: read/write x 8/16 x transports x 5 option modes x 33 block sizes (0..4 and 2^k-1..2^k+3 for k=7,8,15,16,31, 2^32-3..2^32-1) x payload 0..8 octets x 6 variants; G: 9 reply kinds (incl. the busy and receive-overflow replies of reception) x sink failure at reply octet 0..23 x 3 error codes x transports, followed by a request on the healed channel"
+    mc_finish(true, th ? "A: 2 transports x read/write x 8/16-bit semantics x 8/16-bit memory x 6 addresses x every block size 0..capacity(160-octet block) x 4 contents x 4 sequence numbers; O: all 4 combinations of the checksum option bits x every block size 0..capacity (reads: capacity+3); S: every sequence of 2..4 receptions out of 14 (4 requests, 2 non-requests, 3 corrupted/empty frames, 3 channel failures, allocation failure, frame larger than the block) x 3 RPMaybeFrame disciplines x heap/pool allocator x transports, and every sequence of 2..3 with each of the other two source kinds (chunk, octet, chunk with getbuffer); " BOUND_REST
+                       : "A: as thorough with the sequence number rotating with the address for blocks > 2; O: all 4 combinations of the checksum option bits x block sizes 0..2 and capacity-3..capacity (reads: capacity+3); S: every sequence of 2..3 receptions out of 14 (4 requests, 2 non-requests, 3 corrupted/empty frames, 3 channel failures, allocation failure, frame larger than the block) x 3 RPMaybeFrame disciplines x heap/pool allocator x transports; " BOUND_REST);
     return 0;
 }
